@@ -135,6 +135,18 @@ Rec = record(x = int, y = field(str, "d"))
 a_way = Way("DOWN")
 a_rec = Rec(x = {kk})
 
+# two equal, physically distinct values nested 150 deep: comparing them goes 150 levels down, under
+# the limit on nesting (which is per comparison, whatever other threads are comparing meanwhile)
+def nest(d, leaf):
+    v = [leaf]
+    for _ in range(d):
+        v = [v]
+    return v
+deep_l = nest(150, K)
+deep_r = nest(150, K)
+def same(x, y):
+    return x == y
+
 LIB = {k}
 "#,
         words = word_list(rng, n),
@@ -197,7 +209,7 @@ def main(x):
     };
     format!(
         r#"
-load("shared{a}", a_f = "f", a_g = "g", a_fib = "fib", a_digest = "digest", a_LIB = "LIB", a_KINDS = "KINDS", a_Way = "Way", a_Rec = "Rec", a_way = "a_way", a_rec = "a_rec")
+load("shared{a}", a_f = "f", a_g = "g", a_fib = "fib", a_digest = "digest", a_LIB = "LIB", a_KINDS = "KINDS", a_Way = "Way", a_Rec = "Rec", a_way = "a_way", a_rec = "a_rec", a_deep_l = "deep_l", a_deep_r = "deep_r", a_same = "same")
 load("shared{b}", b_data = "data", b_table = "table", b_pairs = "pairs", b_add_k = "add_k", b_LIB = "LIB")
 TAG = "{tag}"
 # the shared anonymous types bound to names of this module, and what can be seen of all the types
@@ -213,7 +225,8 @@ words = {words}
 tbl = {{w: len(w) * K for w in words}}
 {body}
 data = [main(j) for j in range(2)]
-repr((TAG, data, types_seen))
+deep = (len([1 for _ in range(60) if a_same(a_deep_l, a_deep_r)]), a_deep_l < a_deep_r, a_deep_l == [a_deep_r])
+repr((TAG, data, types_seen, deep))
 "#,
         a = a,
         b = b,
